@@ -233,25 +233,25 @@ func genNyctMsg(t *rapid.T, zone string) (*rgen.Msg, int, int, bool) {
 	return m, nN, nPlain, swapSet
 }
 
-func TestC16(t *testing.T) {
-	rapid.Check(t, func(t *rapid.T) {
-		zone := rapid.SampledFrom([]string{"", "America/New_York"}).Draw(t, "zone")
-		m, nN, nPlain, swapSet := genNyctMsg(t, zone)
-		c := CaseC16{Zone: zone, Msg: m, Opts: rgen.NyctTripsOpts{FilterStale: rapid.Bool().Draw(t, "filter"), PreserveM: rapid.Bool().Draw(t, "preserveM")}}
-		_, dropped := rgen.ApplyNyctTrips(m, c.Opts)
-		cls := []string{fmt.Sprintf("filter=%v,preserveM=%v", c.Opts.FilterStale, c.Opts.PreserveM)}
-		if dropped > 0 {
-			cls = append(cls, "stale-trip-dropped")
-		}
-		if swapSet {
-			cls = append(cls, "m-swap-stop")
-		}
-		c16Rec.Eval(cls...)
-		if (nN >= 1 && nPlain >= 1) || swapSet {
-			c16Rec.NontrivialCase(vt.Fingerprint(c), func() any { return c })
-		}
-		vt.Run(t, c16Rec, c, checkC16)
-	})
+func TestC16(t *testing.T) { rapid.Check(t, propC16) }
+
+func propC16(t *rapid.T) {
+	zone := rapid.SampledFrom([]string{"", "America/New_York"}).Draw(t, "zone")
+	m, nN, nPlain, swapSet := genNyctMsg(t, zone)
+	c := CaseC16{Zone: zone, Msg: m, Opts: rgen.NyctTripsOpts{FilterStale: rapid.Bool().Draw(t, "filter"), PreserveM: rapid.Bool().Draw(t, "preserveM")}}
+	_, dropped := rgen.ApplyNyctTrips(m, c.Opts)
+	cls := []string{fmt.Sprintf("filter=%v,preserveM=%v", c.Opts.FilterStale, c.Opts.PreserveM)}
+	if dropped > 0 {
+		cls = append(cls, "stale-trip-dropped")
+	}
+	if swapSet {
+		cls = append(cls, "m-swap-stop")
+	}
+	c16Rec.Eval(cls...)
+	if (nN >= 1 && nPlain >= 1) || swapSet {
+		c16Rec.NontrivialCase(vt.Fingerprint(c), func() any { return c })
+	}
+	vt.Run(t, c16Rec, c, checkC16)
 }
 
 func TestC16Plain(t *testing.T) {
